@@ -9,9 +9,10 @@ import c12_run
 from core import PropBase, fail
 
 KIND_NAME = {'merge': 'contextmerge'}
-# C12_FIXED_MODEL=1: compare with the machine in which `in` / configvars deep-copy on injection
-# (Alias.step_fixed) - for evaluating the repair on a scratch copy of the repository
-STEP = 'step_fixed' if os.environ.get('C12_FIXED_MODEL') else 'step'
+# The model is Alias.step (injection deep-copies, pypyr commit d9572b0).  C12_ALIASING_MODEL=1
+# compares with the historical Alias.step_aliasing instead - only for replaying a case against a
+# checkout of the pre-repair code.
+STEP = 'step_aliasing' if os.environ.get('C12_ALIASING_MODEL') else 'step'
 
 
 def blame_kind(case, pname, idx):
@@ -67,7 +68,9 @@ class Prop(PropBase):
     rule = ('case = two generated pipelines (main 1-5 steps, other 1-3) of set / append / contextmerge / '
             'default / py / contextcopy / configvars steps with `in` containers, foreach and retry '
             'decorators, config.vars, an initial context, optionally run through a config shortcut; '
-            '40% follow the no-mutation-through-definition-aliases discipline. Each case: load once, '
+            '40% avoid in-place operations on `in`-supplied values (the class that was unsafe before '
+            'the repair d9572b0), 60% aim at them; empty list/dict literals as step arguments that '
+            'are then grown in place are generated on purpose. Each case: load once, '
             'run main, main, other, main on the same cached definitions with a deep snapshot of '
             'PipelineDefinition.pipeline, config.vars, config.shortcuts around every run and at every '
             'step. thorough tier adds pairs on two real threads under a step-granular turnstile '
@@ -76,7 +79,8 @@ class Prop(PropBase):
         'PARTIAL: CPython-level atomicity (GIL) of dict/list operations, the logging module and third-party '
         'step modules are NOT modelled; the interleaving theorem is at step granularity, which the '
         'thorough tier realises with a turnstile step between real steps on two real threads',
-        'Model/Alias.v is an abstract heap machine: step bodies are the effects (by identity) of '
+        'Model/Alias.v is an abstract heap machine (Alias.step = the code after commit d9572b0: `in` and '
+        'config.vars are deep-copied into the context): step bodies are the effects (by identity) of '
         'pypyr.steps.set/contextsetf, append, contextmerge, default, py (k.append / k[s]=z), contextcopy, '
         'configvars, and of Step.set/unset_step_input_context, foreach, retry; values are ints, lists, '
         'str-keyed dicts; sets (pypyr.steps.add) and foreach over a !py reference are checked by the '
@@ -202,9 +206,7 @@ class Prop(PropBase):
             tags.append('monitor-only')
         else:
             disc = all(L.disciplined(L.pipeline_ops(case, p)) for p in ('main', 'other'))
-            tags.append('disciplined' if disc else 'not-disciplined')
-            if disc and any(r['changed_after'] for r in rs):
-                tags.append('DISCIPLINED-BUT-DEFINITION-CHANGED')
+            tags.append('mutates-in-supplied-value:' + ('no' if disc else 'yes'))
         if len(rs) >= 2 and rs[0]['pipe'] == rs[1]['pipe'] and (
                 rs[0]['final'] != rs[1]['final'] or rs[0]['outcome'] != rs[1]['outcome']):
             tags.append('rerun-differs')
